@@ -512,20 +512,33 @@ DISPLAY_DOCS = [(["display: private"], ["private"]), (["display: public", "displ
 
 def _o6_prog(doc):
     return {"a.f90": ["module shapes"] + ["!! " + l for l in doc] + ["!!", "!! The shapes module."] +
-            ["integer, public :: vpub", "integer, private :: vpriv", "integer, protected :: vprot", "end module shapes"]}
+            ["integer, public :: vpub", "integer, private :: vpriv", "integer, protected :: vprot",
+             # the override is inherited by the contents of the module's contents: components of its types
+             "type, public :: tpub", "integer, public :: cpub", "integer, private :: cpriv", "end type tpub",
+             "type, private :: tpriv", "integer, public :: dpub", "integer, private :: dpriv", "end type tpriv",
+             "end module shapes"]}
 
 
 def o6_expected(override, project_display):
     sel = project_display if override is None else override
     if "none" in [x.lower() for x in sel]:
         return []
-    acc = {"vpub": "public", "vpriv": "private", "vprot": "protected"}
-    return sorted(n for n, a in acc.items() if a in [x.lower() for x in sel])
+    sel = [x.lower() for x in sel]
+    acc = {"vpub": "public", "vpriv": "private", "vprot": "protected", "tpub": "public", "tpriv": "private"}
+    comps = {"tpub": {"cpub": "public", "cpriv": "private"}, "tpriv": {"dpub": "public", "dpriv": "private"}}
+    out = [n for n, a in acc.items() if a in sel]
+    for t, cs in comps.items():
+        if acc[t] in sel:
+            out.extend(f"{t}%{c}" for c, a in cs.items() if a in sel)
+    return sorted(out)
 
 
 def _o6b_observe(p):
     m = p.modules[0]
-    return sorted(str(v.name).lower() for v in m.variables)
+    out = [str(v.name).lower() for v in m.variables] + [str(t.name).lower() for t in m.types]
+    for t in m.types:
+        out.extend(f"{str(t.name).lower()}%{str(c.name).lower()}" for c in t.variables)
+    return sorted(out)
 
 
 def replay_o6b(w):
@@ -544,7 +557,7 @@ def replay_o6b(w):
 @obligation("C05", "O6.display-override-spellings", engine="SX(CV)", timeout=900)
 def display_override(ctx):
     """module documentation carrying a `display` override in a symbolic spelling (one value, repeated key, continuation lines, three values,
-    none, absent) under a symbolic project setting: the module lists exactly the variables the override (else the project setting) selects"""
+    none, absent) under a symbolic project setting: the module lists exactly the variables and types, and its types exactly the components, that the override (else the project setting) selects"""
     import ford.sourceform as sf
     import ford.utils as fu
 
